@@ -47,6 +47,8 @@ type PushParams struct {
 	// file-named target: every pusher writes under one file name, one after the other
 	// (a failed push followed by another push of the same name)
 	SameName bool `json:"same_name,omitempty"`
+	// limited target: push size limit (0 = 1 MiB)
+	Limit int64 `json:"limit,omitempty"`
 }
 
 type pushProp struct{}
@@ -143,6 +145,9 @@ func (p *pushProp) Gen(r *Rand, tier string, idx int) any {
 	}
 	if n > 1 || r.Chance(0.3) {
 		pp.Watch = r.Range(5, 40)
+	}
+	if pp.Target == "limited" && r.Chance(0.5) {
+		pp.Limit = int64(pick(r, []int{0, 1, 9, 10, 16, 5000}))
 	}
 	if pp.Target == "file-named" && r.Chance(0.5) {
 		pp.SameName = true
@@ -420,7 +425,11 @@ func (p *pushProp) run(rc *RunCtx, pp *PushParams, info *RunInfo) *Verdict {
 		st = s
 		closer = func() { s.Close() }
 	case "limited":
-		st = content.LimitStorage(cas.NewMemory(), 1<<20)
+		lim := pp.Limit
+		if lim == 0 {
+			lim = 1 << 20
+		}
+		st = content.LimitStorage(cas.NewMemory(), lim)
 	case "proxy", "readall", "verifyreader":
 	}
 	if closer != nil {
@@ -592,6 +601,20 @@ func (p *pushProp) run(rc *RunCtx, pp *PushParams, info *RunInfo) *Verdict {
 			continue
 		}
 		// store targets
+		if pp.Target == "limited" {
+			lim := pp.Limit
+			if lim == 0 {
+				lim = 1 << 20
+			}
+			if d.Size > lim {
+				// over the push limit: the size-limited wrapper must refuse it, whatever the content
+				if errs[i] == nil {
+					return violation("limit-ignored", "", "%s: a descriptor of %d bytes was accepted by a storage limited to %d", what, d.Size, lim)
+				}
+				info.Probes["over_limit_refused"]++
+				continue
+			}
+		}
 		if errs[i] == nil && !j.valid {
 			// a competing good push under the same descriptor does not excuse a bad one reporting success
 			sig := ""
